@@ -171,7 +171,10 @@ fn build_by_item_enum_core(
             DeriveItemKind::Clone => build_clone_for_enum(item, &e, &variants),
             DeriveItemKind::Debug => build_debug_for_enum(item, &e, &hattrs, &variants),
             DeriveItemKind::Default => build_default_for_enum(item, &e, &hattrs, &variants),
-            _ => bail!(e.span, "derive `{}` for enum is not supported", e.kind),
+            _ => Err(Error::new(
+                e.span,
+                format!("derive `{}` for enum is not supported", e.kind),
+            )),
         };
         ts_all.extend(e.apply_dump(result));
     }
